@@ -643,3 +643,6 @@ CHECKS["C04"]["required_classes"]["all"] += ['agent-options:upgrades="local",pol
 CHECKS["C06"]["required_classes"]["all"] += ["login:another-users-password"]
 CHECKS["C10"]["jobs"].append(J("stalled-clients", VBB, "TestC10StalledClients", {"shards": 4, "checks": 5}, {"shards": 16, "checks": 150}))
 CHECKS["C10"]["required_classes"]["all"] += ["stalled-client:sasl"]
+CHECKS["C04"]["required_classes"]["all"] += ["bb-frontend:https-basic-auth", "bb-frontend:ldaps"]
+CHECKS["C04"]["level_text"] += " The black-box job also starts the agent socket-activated (runsa) and with TLS listeners (https, ldaps with a self-signed certificate)."
+CHECKS["C04"]["assumptions"] = ["the TLS listeners are exercised by the black-box job only (self-signed certificate, verification off); StartTLS on the plain LDAP listener is not generated"]
